@@ -120,7 +120,7 @@ theorem reload_identity (ds : List Domain) (name : String) (h : InputOK ds name)
   handed to `combine_modules` can itself be a merged module). -/
 
 /-- 6a. `combine_modules` never raises: the head re-added outside the `try`, the trailing-KR
-    step (with fixes/D25_combine_kr_after_end.patch) and `tail.components[0]` are all safe -/
+    step (with fixes/D33_combine_kr_after_end.patch) and `tail.components[0]` are all safe -/
 theorem combine_total (cs ps : Int) (cur prev : List Module)
     (hp : ∀ m ∈ prev, Good m) (hc : ∀ m ∈ cur, Good m) :
     ∃ r, combine cs ps cur prev = .ok r := by
@@ -286,7 +286,7 @@ example : labelsOf (buildGo [c "PKS_KS" 0, c "PKS_AT" 5, c "ACP" 10, c "NRPS-COM
                              c "LPG_synthase_C" 30, c "Beta_elim_lyase" 40, c "ACP" 50] [] (Module.new true))
     = [["PKS_KS", "PKS_AT", "ACP", "ACP", "LPG_synthase_C", "Beta_elim_lyase"], ["ACP"]] := by decide
 
-/-- D25 witness on the repaired model: [KS(trans-AT)] + [ACP, TE] merges, the KR module stays -/
+/-- D33 witness on the repaired model: [KS(trans-AT)] + [ACP, TE] merges, the KR module stays -/
 def headKS : Module := { Module.new true with components := [c "PKS_KS" 0 ["Trans-AT-KS"]],
                                                starter := some (c "PKS_KS" 0 ["Trans-AT-KS"]) }
 example : (match mergeModules headKS
